@@ -95,6 +95,12 @@ def run(chk, binary):
         chain = rng.choice([1, 1, 1, 2, 3, 4])
         cnt = rng.choice(["", "", "", "2", "3"]) if chain == 1 else ""
         cls, X = change(rng, counts=not cnt)
+        if cls == "J" and rng.random() < 0.6:
+            # joins want lines below the cursor, and counts above two to show how many a counted repeat takes
+            text = "a\nb\nc d\ne\nf\ng\nh\ni\nj\nk\n"
+            if chain == 1:
+                cnt = rng.choice(["3", "4", "2", ""])
+                cls, X = "J", "J"
         start = rng.randint(0, max(0, len(text) - 2))
         if rng.random() < 0.2 and cls == "put":
             pre = [rng.choice(["yiw", "yy", '"ayiw', '"byy'])]
